@@ -249,7 +249,25 @@ def rule_r3b(chk, facts, P):
     """A stored body line is a byte string in which every parameter occurrence is a two-byte token; the expander looks
     for one token at a time with a plain substring search.  That is only sound if no token can appear across the
     boundary of two adjacent tokens, i.e. if first and second token bytes come from disjoint value ranges."""
-    f = facts.func('asmsub.c', 'SetToken')
+    # the token builder is found by its role, not by its name: the static function of asmsub.c that both
+    # CompressLine() and ExpandLine() call and that stores bytes 0 and 1 of its first parameter
+    su = facts.unit('asmsub.c')
+    cands = []
+    for g in su.funcs.values():
+        if len(g.params) != 2 or g.name in ('CompressLine', 'ExpandLine'):
+            continue
+        callers = set(h.name for h in su.funcs.values() if list(h.calls(g.name)))
+        if not {'CompressLine', 'ExpandLine'} <= callers:
+            continue
+        idx = set()
+        for b, i, ln, m in g.nodes():
+            if is_assign(m) and m[1] == '=' and strip(m[2])[0] == 'i' and strip(strip(m[2])[1]) == ('p', g.params[0]['name']):
+                idx.add(const_val(strip(m[2])[2]))
+        if {0, 1} <= idx:
+            cands.append(g)
+    if len(cands) != 1:
+        raise AnalysisBroken('token builder shared by CompressLine() and ExpandLine() not found (%d candidates)' % len(cands))
+    f = cands[0]
     u = facts.unit('as.c')
     amax = None
     for fn in u.funcs.values():
@@ -265,10 +283,10 @@ def rule_r3b(chk, facts, P):
         if is_assign(m) and m[1] == '=' and strip(m[2])[0] == 'i' and const_val(strip(m[2])[2]) in (0, 1):
             rng[const_val(strip(m[2])[2])] = _interval(m[3], env)
     if rng.get(0) is None or rng.get(1) is None:
-        raise AnalysisBroken('SetToken: token byte expressions not understood')
+        raise AnalysisBroken('%s: token byte expressions not understood' % f.name)
     (a0, a1), (b0, b1) = rng[0], rng[1]
     ok = a1 < b0 or b1 < a0
-    chk.ob('C11-R3', 'asmsub.c:SetToken:self-synchronising', ok, f.loc(),
+    chk.ob('C11-R3', 'asmsub.c:parameter-token:self-synchronising', ok, f.loc(),
            'first byte %d..%d, second byte %d..%d: disjoint' % (a0, a1, b0, b1) if ok else
            'first token byte ranges over %d..%d and second over %d..%d: the second byte of one token followed by the first '
            'byte of the next can itself be a token, so adjacent parameters (\\p16\\\\p17\\) are mis-substituted' % (a0, a1, b0, b1))
@@ -302,8 +320,7 @@ def rule_r4(chk, facts, P):
             e = need
             for rnd in range(3):
                 if e[0] == 'l':
-                    ds = [nocast(x[2]) for bb, ii, ll, x in f.nodes() if x[0] == 'decl' and x[1] == e[1] and x[2] is not None] + \
-                         [nocast(x[3]) for bb, ii, ll, x in f.nodes() if is_assign(x) and x[1] == '=' and strip(x[2]) == e]
+                    ds = [nocast(x[3]) for bb, ii, ll, x in f.nodes() if is_assign(x) and x[1] == '=' and strip(x[2]) == e]
                     if len(ds) == 1:
                         e = ds[0]
             plus = False
